@@ -4,6 +4,7 @@ import (
 	"bytes"
 	"fmt"
 	"math/big"
+	"os"
 	"strings"
 
 	"github.com/btcsuite/btcd/btcec/v2"
@@ -362,6 +363,57 @@ func ctxSession(sort bool, msg [32]byte, tw tweakOpt, signersS string) string {
 	return fmt.Sprintf("%s sig=%x", head, final.Serialize())
 }
 
+// forgedInfNonce: single signer d, no tweak. Computes b, R, e, a, g from exported pieces and returns the
+// pverify line with s = e*a*g*d and a public nonce 00||junk, 00||junk.
+func forgedInfNonce(r *core.Rand, d *big.Int, aggN [musig2.PubNonceSize]byte, msg [32]byte, sort bool) (string, bool) {
+	pk := pubOf(d)
+	comp := pk.SerializeCompressed()
+	agg, gacc, _, err := musig2.AggregateKeys([]*btcec.PublicKey{pk}, sort)
+	if err != nil {
+		return "", false
+	}
+	qx := schnorr.SerializePubKey(agg.FinalKey)
+	bh := chainhash.TaggedHash(musig2.NonceBlindTag, aggN[:], qx, msg[:])
+	var bs btcec.ModNScalar
+	bs.SetByteSlice(bh[:])
+	r1, e1 := btcec.ParseJacobian(aggN[:33])
+	r2, e2 := btcec.ParseJacobian(aggN[33:])
+	if e1 != nil || e2 != nil {
+		return "", false
+	}
+	var R btcec.JacobianPoint
+	btcec.ScalarMultNonConst(&bs, &r2, &r2)
+	btcec.AddNonConst(&r1, &r2, &R)
+	if (R.X.IsZero() && R.Y.IsZero()) || R.Z.IsZero() {
+		return "", false
+	}
+	R.ToAffine()
+	rx := R.X.Bytes()
+	eh := chainhash.TaggedHash(musig2.ChallengeHashTag, rx[:], qx, msg[:])
+	l := chainhash.TaggedHash(musig2.KeyAggTagList, comp)
+	ah := chainhash.TaggedHash(musig2.KeyAggTagCoeff, append(append([]byte{}, l[:]...), comp...))
+	var es, as, dsc btcec.ModNScalar
+	es.SetByteSlice(eh[:])
+	as.SetByteSlice(ah[:])
+	dsc.SetByteSlice(b32(d))
+	gq := new(btcec.ModNScalar).SetInt(1)
+	if agg.FinalKey.SerializeCompressed()[0] == 3 {
+		gq.Negate()
+	}
+	s := es.Mul(&as).Mul(gq).Mul(gacc).Mul(&dsc)
+	junk := func() []byte { return append([]byte{0}, r.Bytes(32)...) }
+	pn := append(junk(), junk()...)
+	if r.Chance(1, 3) {
+		pn = make([]byte, 66) // canonical infinity encoding in both halves: also not a valid individual nonce
+	}
+	sortS := "0"
+	if sort {
+		sortS = "1"
+	}
+	sb := s.Bytes()
+	return fmt.Sprintf("C11 pverify %x %x %x %x %x %x %s -", sb[:], pn, aggN[:], comp, comp, msg[:], sortS), true
+}
+
 // ---------------------------------------------------------------- generators
 
 func randTweaks(r *core.Rand, maxLen int) string {
@@ -598,6 +650,16 @@ func genMusig(g *core.Gen) {
 				tws = "-"
 			}
 			class = "other-tweaks"
+		}
+		// F-C11-b trigger: a "partial signature" s = e*a*g*d made WITHOUT any nonce verifies against a public
+		// nonce whose halves merely start with 0x00 (taken as infinity before the fix; BIP327 rejects it)
+		if i%3 == 0 {
+			if line, ok := forgedInfNonce(r, randPriv(r), aggN, msg, sort); ok {
+				g.Case("pverify:inf-pubnonce", true, line)
+				if os.Getenv("C11_DUMP") != "" {
+					fmt.Fprintln(os.Stderr, "DUMP "+line)
+				}
+			}
 		}
 		// Sign on its own against an arbitrary (possibly adversarial) aggregate nonce
 		{
